@@ -300,6 +300,10 @@ pub struct Inner {
     pub unit_of: Vec<Option<usize>>,
     pub monitors_on: bool,
     pub rr_next: usize,
+    /// (thread, api index, kind, raw ops issued) of every finished API call
+    pub api_log: Vec<(Tid, u32, ApiKind, u32)>,
+    /// raw faults fired so far, per thread
+    pub faults_by: Vec<u64>,
 }
 
 pub struct Sched {
@@ -667,6 +671,7 @@ impl Inner {
     }
     fn note_fault(&mut self, t: Tid, lid: Lid, op: RawOp, when: When) {
         self.locks[lid].faulted = true;
+        self.faults_by[t] += 1;
         if op.is_release() {
             self.locks[lid].unlock_faulted = true;
         }
@@ -684,6 +689,7 @@ pub struct RunOutcome {
     pub stats: Stats,
     pub drops: Vec<u32>,
     pub final_owner: Vec<(Option<Tid>, Vec<Tid>)>,
+    pub api_log: Vec<(Tid, u32, ApiKind, u32)>,
 }
 
 impl Sched {
@@ -731,6 +737,8 @@ impl Sched {
                 unit_of: vec![None; nlocks],
                 monitors_on: true,
                 rr_next: 0,
+                api_log: Vec::new(),
+                faults_by: vec![0; nthreads],
             }),
             cvs: (0..nthreads).map(|_| Condvar::new()).collect(),
             ctl: Condvar::new(),
@@ -861,6 +869,7 @@ impl Sched {
             stats: g.stats.clone(),
             drops: g.drops.clone(),
             final_owner: g.owner_table(),
+            api_log: std::mem::take(&mut g.api_log),
         }
     }
 
@@ -1012,7 +1021,14 @@ impl Sched {
     pub fn api_end(&self) -> ApiRec {
         let me = my_tid().expect("api_end outside simulated thread");
         let mut g = self.lock();
-        g.threads[me].api_stack.pop().expect("api_end without api_begin")
+        let r = g.threads[me].api_stack.pop().expect("api_end without api_begin");
+        g.api_log.push((me, r.idx, r.kind, r.raw_ops));
+        r
+    }
+
+    pub fn faults_fired_by_me(&self) -> u64 {
+        let me = my_tid().expect("faults_fired_by_me outside simulated thread");
+        self.lock().faults_by[me]
     }
 
     /// number of API records currently open on this thread
@@ -1027,7 +1043,9 @@ impl Sched {
         let mut g = self.lock();
         let mut v = Vec::new();
         while g.threads[me].api_stack.len() > depth {
-            v.push(g.threads[me].api_stack.pop().unwrap());
+            let r = g.threads[me].api_stack.pop().unwrap();
+            g.api_log.push((me, r.idx, r.kind, r.raw_ops));
+            v.push(r);
         }
         v
     }
